@@ -4,6 +4,7 @@ import (
 	"context"
 	"fmt"
 	"io"
+	"math"
 	"runtime"
 	"sync/atomic"
 	"time"
@@ -64,7 +65,7 @@ func New[A p2p.Addr, Pub any](x p2p.SecureSwarm[A, Pub], mtu int, opts ...Option
 func (s *Swarm[A, Pub]) Ask(ctx context.Context, resp []byte, dst A, req p2p.IOVec) (int, error) {
 	ctx, cf := context.WithTimeout(ctx, maxAskWait)
 	defer cf()
-	if p2p.VecSize(req) > s.mtu {
+	if p2p.VecSize(req) > s.MTU() {
 		return 0, p2p.ErrMTUExceeded
 	}
 	// create ask in map
@@ -105,7 +106,7 @@ func (s *Swarm[A, Pub]) Ask(ctx context.Context, resp []byte, dst A, req p2p.IOV
 }
 
 func (s *Swarm[A, Pub]) Tell(ctx context.Context, dst A, msg p2p.IOVec) error {
-	if p2p.VecSize(msg) > s.mtu {
+	if p2p.VecSize(msg) > s.MTU() {
 		return p2p.ErrMTUExceeded
 	}
 	return s.send(ctx, dst, sendParams{
@@ -146,6 +147,10 @@ func (s *Swarm[A, Pub]) LookupPublicKey(ctx context.Context, x A) (Pub, error) {
 }
 
 func (s *Swarm[A, Pub]) MTU() int {
+	// the part count is carried in 16 bits
+	if max := (s.inner.MTU() - HeaderSize) * math.MaxUint16; max < s.mtu {
+		return max
+	}
 	return s.mtu
 }
 
